@@ -205,6 +205,9 @@ def cases(tier):
     for backend in ("sql", "kv"):
         for variant in ("big_stored_result", "many_live_pushes"):
             out.append(("slow", backend, variant, (), tier))
+    for backend in ("sql", "kv"):
+        for first in (RL_ALPHA_Q if tier == "quick" else RL_ALPHA_T):
+            out.append(("ratelimited", backend, first, (), tier))
     names = list(HF())
     blk = 12
     for backend in ("sql", "kv"):
@@ -317,9 +320,87 @@ def baseline(backend, emb, auth):
     return _BASE[key]
 
 
+# ---------------------------------------------------------------------------------------------------
+# Rate limits configured: every connection end runs the limiter's cleanup() inside the handler's finally block.  All short histories of
+# commands, silences and connection ends of two addresses; nothing may escape any handler and later commands are still answered.
+RL_RULES = {"ip": {"EVENT": "10/s", "CLOSE": "10/s", "REQ": "10/s"}}
+RL_ALPHA_Q = ["c1:EVENT", "c1:CLOSE", "WAIT", "c2:RECONNECT", "c1:RECONNECT"]
+RL_ALPHA_T = RL_ALPHA_Q + ["c1:REQ", "c2:EVENT"]
+
+
+def run_ratelimited(case):
+    import itertools
+    from ..harness import World
+
+    _, backend, first, _, tier = case
+    alpha = RL_ALPHA_Q if tier == "quick" else RL_ALPHA_T
+    depth = 5
+    viol = []
+    cid = "ratelimited|%s" % backend
+    n = 0
+    evs = [make_event("A", 1, 900 + i, [], "rl %d" % i) for i in range(8)]
+    for rest in itertools.product(alpha, repeat=depth - 1):
+        seqn = (first,) + rest
+        w = World(backend, rate_limits=RL_RULES, storage_options={"stats_interval": 1e15}, message_timeout=1e300)
+        try:
+            conns = {"c1": w.connect("c1", "1.1.1.1"), "c2": w.connect("c2", "2.2.2.2")}
+            w.run(1e6)
+            ended = []
+            ei = 0
+            for j, act in enumerate(seqn):
+                if act == "WAIT":
+                    w.loop.advance(1.5)
+                    continue
+                cn, cmd = act.split(":")
+                if cmd == "RECONNECT":
+                    old = conns[cn]
+                    old.drop()
+                    w.run(1e6)
+                    ended.append((old, ",".join(seqn[: j + 1])))
+                    w.conns.pop(cn, None)
+                    conns[cn] = w.connect(cn, "1.1.1.1" if cn == "c1" else "2.2.2.2")
+                    w.run(1e6)
+                    continue
+                fr = ["EVENT", evs[ei]] if cmd == "EVENT" else (["CLOSE", "s"] if cmd == "CLOSE" else ["REQ", "s", {"kinds": [1], "limit": 1}])
+                if cmd == "EVENT":
+                    ei += 1
+                w.send(cn, fr, 1e6)
+                n += 1
+            # a final probe on each connection, then both end
+            for cn in ("c1", "c2"):
+                n0 = len(conns[cn].transcript)
+                w.send(cn, ["EVENT", evs[7] if cn == "c1" else evs[6]], 1e6)
+                if conns[cn].closed_by_relay is None and not any(k == "send" and p.startswith('["OK"') for k, _, p in conns[cn].transcript[n0:]):
+                    viol.append({"case": cid, "clause": "keeps-answering-wellformed-commands", "sig": ",".join(seqn) + "|" + cn,
+                                 "detail": "the final EVENT on %s got no OK | seq=%s" % (cn, ",".join(seqn))})
+            for cn in ("c1", "c2"):
+                conns[cn].drop()
+                w.run(1e6)
+                ended.append((conns[cn], ",".join(seqn) + ",end:" + cn))
+            for c, h in ended:
+                if c.handler_exception is not None:
+                    viol.append({"case": cid, "clause": "no-exception-escapes-the-handler", "sig": h + "|" + type(c.handler_exception).__name__,
+                                 "detail": "the handler of %s ended with %r | seq=%s" % (c.name, c.handler_exception, h)})
+                    break
+            if w.loop.handler_errors:
+                viol.append({"case": cid, "clause": "no-exception-escapes-the-handler", "sig": ",".join(seqn) + "|loop", "detail": repr(w.loop.handler_errors[:2])})
+            left = w.loop.run_coro(w.storage.num_subscriptions(), horizon=10.0)
+            if left.get("total"):
+                viol.append({"case": cid, "clause": "everything-dropped-at-disconnect", "sig": ",".join(seqn), "detail": "%r subscriptions left after both connections ended | seq=%s" % (left, ",".join(seqn))})
+        finally:
+            w.close()
+    uniq = {}
+    for v in viol:
+        uniq.setdefault((v["clause"], v["sig"]), v)
+    return {"id": "%s|%s" % (cid, first), "viol": list(uniq.values()), "outcome": None, "evals": n, "states": n, "transitions": n, "nontrivial": True,
+            "desc": describe(case), "extra": {"ratelimited_commands": n}, "sample": {"mode": "ratelimited", "backend": backend, "first": first, "commands": n}}
+
+
 def run_case(case):
     if case[0] == "slow":
         return run_slow(case)
+    if case[0] == "ratelimited":
+        return run_ratelimited(case)
     mode, backend, emb, names, tier = case
     viol = []
     n = 0
@@ -352,7 +433,9 @@ def coverage(tier, agg):
                 "the REQ sub id, the filter, every filter key and list member, the CLOSE and AUTH argument; missing and extra event fields; short "
                 "frames; unknown and lower-case commands; 40 filters; malformed delegation; 20 invalid / huge / deeply nested JSON texts) x embeddings "
                 "{between probes, twice, five times, followed by disconnect} x backends at the default schedule, plus every 1-deviation schedule for %d frames; "
-                "connection 2 subscribes before and submits after; oracle: nothing escapes start_client, no unretrieved task exception, later "
+                "connection 2 subscribes before and submits after; rate-limited: every history of 5 actions over {EVENT, CLOSE, silence of 1.5 s, "
+                "reconnect of either address (thorough: also REQ and an EVENT of the other address)} with per-address limits configured (each connection end runs the "
+                "limiter's cleanup in the handler's finally block); oracle: nothing escapes start_client, no unretrieved task exception, later "
                 "probes answered or connection closed with registry entry and tasks gone, connection 2's transcript equal to the run without the "
                 "hostile frame, nothing left after both disconnect." % (len(HF()), len(T), (len(SUBSET) + len(HF()) // 3) if tier == "thorough" else 6),
         "backends": ["sql", "kv"],
